@@ -56,6 +56,10 @@ def run(report, db, tier):
     plugin_arm(report, db, M, P, fi, arms)
     success_arm(report, db, M, fi, arms)
     disconnect_arm(report, db, S, M, fi, arms)
+    # after the compression arm, every following frame goes through the
+    # reader's compressed branch: it must accept what the format allows
+    from .c01 import reader as frame_reader
+    frame_reader(report, db, S, M, rule_id='R10.2r')
     # the helper the disconnect arm hands the server's version to
     from .c09 import mismatch
     mismatch(report, db, cg, M, P, rule_id='R10.5m')
